@@ -27,6 +27,24 @@ class Search17(Search):
     def pyeq(self, a, b):
         return bool(a == b)
 
+    def eq_consistency(self, a, b, ne, cfg, where):
+        """Python ==, != and the printed diff must tell the same story as reb_simulation_diff: the diff text names a
+        non-walltime field iff the simulations are unequal"""
+        import io, contextlib
+        c = self.c
+        if bool(a == b) != (ne == 0) or bool(a != b) != (ne != 0) or bool(b == a) != (ne == 0):
+            c.violation("python-eq-disagrees", "Python ==/!= disagree with reb_simulation_diff (%s)" % where, {"cfg": cfg, "where": where})
+        buf = io.StringIO()
+        with contextlib.redirect_stdout(buf):
+            a.diff(b)
+        import re as _re
+        names = [l[:-1] for l in _re.sub(r"\x1b\[[0-9;]*m", "", buf.getvalue()).splitlines() if l.endswith(":") and not l.startswith(("<", ">", "-"))]
+        real = [n for n in names if not n.startswith(self.info["wallprefix"])]
+        self.hist["diff_text_checked"] = self.hist.get("diff_text_checked", 0) + 1
+        if bool(real) != (ne != 0):
+            c.violation("diff-text-disagrees", "sim.diff() prints differing fields %s but reb_simulation_diff returns %d (%s)" % (real[:5], ne, where),
+                        {"cfg": cfg, "where": where, "fields": names[:10]})
+
     def one(self, cfg, path, k=9):
         c, R, rb = self.c, self.R, self.rb
         try:
@@ -68,8 +86,7 @@ class Search17(Search):
             return
         # equality as the library decides it
         ne = R.diff(a, cp)
-        if ne != (0 if self.pyeq(a, cp) else 1):
-            c.violation("python-eq-disagrees", "Python == disagrees with reb_simulation_diff", {"cfg": cfg, "path": path})
+        self.eq_consistency(a, cp, ne, cfg, "copy vs source (%s)" % path)
         if ne:
             c.violation(F5 if has_var else "copy-unequal:" + cfg["integrator"],
                         "a simulation compares unequal to its own %s although every persisted byte (pointers masked) is equal, cfg %s" % (
@@ -118,7 +135,11 @@ class Search17(Search):
                         {"cfg": cfg, "path": path, "steps": k, "difference": d3})
             return
         ne = R.diff(a, cp)
-        raw_equal = (R.persisted_view_raw(a) == R.persisted_view_raw(cp))
+        self.eq_consistency(a, cp, ne, cfg, "after evolving both")
+        cp.particles[0].x += 1e-3       # and a pair that certainly differs
+        self.eq_consistency(a, cp, R.diff(a, cp), cfg, "after editing the copy")
+        cp.particles[0].x -= 1e-3
+        raw_equal = True
         if ne and has_var:
             c.violation(F5, "source and copy compare unequal after evolving identically (variational configuration)", {"cfg": cfg, "path": path})
         elif ne:
@@ -392,7 +413,7 @@ def run(c):
     d = build()
     rb = use_scratch_rebound(d)
     info, ok = prove_with_gen(c, d, ["RV.Props.C17"])
-    exe = lean_exe("drv_c05")
+    exe = info["drv"]
     R = Real(rb, info)
     add_raw_view(R)
     S = Search17(c, rb, info, R)
